@@ -48,7 +48,7 @@ INVARIANT UntouchedRefusalAccepted
 """
 
 OLD_BYTES = ('{"version": "previous run", "records": [], "note": "café – must survive"}\n' * 3).encode("utf-8")
-ITEMS = ["input", "log", "region", "json", "file", "dir", "dot"]
+ITEMS = ["input", "log", "region", "json", "file", "dir", "dot", "stem", "stemdir"]
 # relative paths (inside the output directory) each abstract item is made of; directories end with "/"
 ITEM_PATHS = {
     "input": ["input/", "input/in.gbk"],
@@ -58,6 +58,8 @@ ITEM_PATHS = {
     "file": ["index.html"],
     "dir": ["svg/", "svg/a.svg"],
     "dot": [".hidden"],
+    "stem": ["log"],
+    "stemdir": ["lo/", "lo/kept.txt"],
 }
 
 # ---- the stub module results (defined lazily: their base class lives in the tree under test) ------
